@@ -18,9 +18,9 @@ class C18:
         # jobs with different timeouts, the longer one queued first: every deadline still holds after a restart
         deadlines = narrow_cfg(tier, {"add", "pull", "tick", "wait", "finish"}, workers=("w1",), timeouts=(100.0, 10.0, 50.0), maxjobs=3,
                                bound=8 if tier == "quick" else 10, maxrestarts=1)
-        return X.search_phases(self.id, [("wide", cfg, cap), ("ids-deep", ids, 60 if tier == "quick" else 1500),
-                                         ("mixed-ids", mixed, 60 if tier == "quick" else 1500),
-                                         ("deadlines", deadlines, 60 if tier == "quick" else 1500)], tier, seed, self.families,
+        return X.search_phases(self.id, [("wide", cfg, cap), ("ids-deep", ids, 60 if tier == "quick" else 600),
+                                         ("mixed-ids", mixed, 60 if tier == "quick" else 600),
+                                         ("deadlines", deadlines, 60 if tier == "quick" else 300)], tier, seed, self.families,
                                post_restart_only=True,
                                rule=RULE + "; the save/restore step (Main.savedb -> pickle file -> Main.loaddb in a fresh Main, all connections gone) is enabled in every quiescent state and exploration continues after it with the C16/C17 oracles armed; only violations that arise after a restart are reported here",
                                assumptions=ASSUME + ("the server is stopped between event-loop iterations (quiescent), as KeyboardInterrupt in serve_forever does",),
